@@ -447,49 +447,6 @@ def iter_zip(ip, st, ci):
     return ("iter", "zip", a, b)
 
 
-def iter_count(ip, st, it):
-    k = it[1]
-    if k == "range":
-        n = it[3] - it[2]
-        if not st.F.prove_ge(n):
-            raise Undecided("range %r..%r may be reversed" % (it[2], it[3]))
-        return n
-    if k == "slice":
-        return it[4]
-    if k == "iobuf":
-        return it[5]
-    if k == "chunks":
-        return it[5]
-    if k == "zip":
-        a = iter_count(ip, st, it[2])
-        b = iter_count(ip, st, it[3])
-        if st.F.le(a, b):
-            return a
-        if st.F.le(b, a):
-            return b
-        raise Undecided("zip of lengths %r and %r" % (a, b))
-    if k == "ref":
-        return iter_count(ip, st, ip.load(st, it[2]))
-    raise Undecided("iterator kind %s" % k)
-
-
-def iter_elem(ip, st, it, i):
-    k = it[1]
-    if k == "range":
-        return vsize(it[2] + i)
-    if k == "slice":
-        return vref(ip.br(it[2], i * it[3], it[3]))
-    if k == "iobuf":
-        return mk_inout(ip.br(it[2], i * it[4], it[4]), ip.br(it[3], i * it[4], it[4]))
-    if k == "chunks":
-        return vref(ip.br(it[2], i * it[4], it[4]))
-    if k == "zip":
-        return ("tuple", [iter_elem(ip, st, it[2], i), iter_elem(ip, st, it[3], i)])
-    if k == "ref":
-        return iter_elem(ip, st, ip.load(st, it[2]), i)
-    raise Undecided("iterator kind %s" % k)
-
-
 @prim("Iterator::next")
 def iter_next(ip, st, ci):
     fr = ci["fr"]
@@ -1058,79 +1015,6 @@ def iter_rev(ip, st, ci):
     return ("iter", "rev", a)
 
 
-def iter_elem_multi(ip, st, it, i):
-    """[(state, element)] — iterators such as chain(...) need a case split on the index."""
-    k = it[1]
-    if k == "chain":
-        na = iter_count(ip, st, it[2])
-        out = []
-        for s2, first in fork_on(st, ("lt", lin(i) - na)):
-            if first:
-                out.extend(iter_elem_multi(ip, s2, it[2], i))
-            else:
-                out.extend(iter_elem_multi(ip, s2, it[3], lin(i) - na))
-        return out
-    if k == "zip":
-        out = []
-        for s2, a in iter_elem_multi(ip, st, it[2], i):
-            for s3, b in iter_elem_multi(ip, s2, it[3], i):
-                out.append((s3, ("tuple", [a, b])))
-        return out
-    if k == "enumerate":
-        return [(s2, ("tuple", [vsize(i), e])) for s2, e in iter_elem_multi(ip, st, it[2], i)]
-    if k == "ref":
-        return iter_elem_multi(ip, st, ip.load(st, it[2]), i)
-    return [(st, iter_elem(ip, st, it, i))]
-
-
-_old_iter_count = iter_count
-
-
-def iter_count(ip, st, it):  # noqa: F811
-    k = it[1]
-    if k == "once":
-        return ONE
-    if k == "chain":
-        return iter_count(ip, st, it[2]) + iter_count(ip, st, it[3])
-    if k in ("enumerate", "rev"):
-        return iter_count(ip, st, it[2])
-    if k == "zip":
-        a = iter_count(ip, st, it[2])
-        b = iter_count(ip, st, it[3])
-        if st.F.le(a, b):
-            return a
-        if st.F.le(b, a):
-            return b
-        raise Undecided("zip of lengths %r and %r" % (a, b))
-    if k == "ref":
-        return iter_count(ip, st, ip.load(st, it[2]))
-    return _old_iter_count(ip, st, it)
-
-
-_old_iter_elem = iter_elem
-
-
-def iter_elem(ip, st, it, i):  # noqa: F811
-    k = it[1]
-    if k == "once":
-        return it[2]
-    if k == "rev":
-        n = iter_count(ip, st, it[2])
-        return iter_elem(ip, st, it[2], n - 1 - lin(i))
-    if k == "enumerate":
-        return ("tuple", [vsize(i), iter_elem(ip, st, it[2], i)])
-    if k == "chain":
-        r = iter_elem_multi(ip, st, it, i)
-        if len(r) == 1:
-            return r[0][1]
-        raise Undecided("chain element needs a case split")
-    if k == "zip":
-        return ("tuple", [iter_elem(ip, st, it[2], i), iter_elem(ip, st, it[3], i)])
-    if k == "ref":
-        return iter_elem(ip, st, ip.load(st, it[2]), i)
-    return _old_iter_elem(ip, st, it, i)
-
-
 @prim("core::slice::<impl [T]>::copy_within")
 def copy_within(ip, st, ci):
     tg = tg_of(ci["args"][0])
@@ -1288,13 +1172,35 @@ def iter_copied(ip, st, ci):
     return ("iter", "copied", a)
 
 
-_iter_count2 = iter_count
-_iter_elem2 = iter_elem
-_iter_elem_multi2 = iter_elem_multi
-
-
-def iter_count(ip, st, it):  # noqa: F811
+# ---------------------------------------------------------------- abstract iterators
+def iter_count(ip, st, it):
+    """number of elements (a size form)."""
     k = it[1]
+    if k == "range":
+        n = it[3] - it[2]
+        if not st.F.prove_ge(n):
+            raise Undecided("range %r..%r may be reversed" % (it[2], it[3]))
+        return n
+    if k == "slice":
+        return it[4]
+    if k == "iobuf":
+        return it[5]
+    if k == "chunks":
+        return it[5]
+    if k == "once":
+        return ONE
+    if k == "zip":
+        a = iter_count(ip, st, it[2])
+        b = iter_count(ip, st, it[3])
+        if st.F.le(a, b):
+            return a
+        if st.F.le(b, a):
+            return b
+        raise Undecided("zip of lengths %r and %r" % (a, b))
+    if k == "chain":
+        return iter_count(ip, st, it[2]) + iter_count(ip, st, it[3])
+    if k in ("enumerate", "rev", "copied"):
+        return iter_count(ip, st, it[2])
     if k == "skip":
         n = iter_count(ip, st, it[2])
         if st.F.le(it[3], n):
@@ -1309,42 +1215,42 @@ def iter_count(ip, st, it):  # noqa: F811
         if st.F.le(n, it[3]):
             return n
         raise Undecided("take(%r) of %r elements" % (it[3], n))
-    if k == "copied":
-        return iter_count(ip, st, it[2])
-    if k in ("zip", "chain", "enumerate", "rev"):
-        # re-dispatch so that nested new kinds are seen
-        if k == "zip":
-            a, b = iter_count(ip, st, it[2]), iter_count(ip, st, it[3])
-            if st.F.le(a, b):
-                return a
-            if st.F.le(b, a):
-                return b
-            raise Undecided("zip of lengths %r and %r" % (a, b))
-        if k == "chain":
-            return iter_count(ip, st, it[2]) + iter_count(ip, st, it[3])
-        return iter_count(ip, st, it[2])
-    return _iter_count2(ip, st, it)
+    if k == "ref":
+        return iter_count(ip, st, ip.load(st, it[2]))
+    raise Undecided("iterator kind %s" % k)
 
 
-def iter_elem_multi(ip, st, it, i):  # noqa: F811
+def iter_elem_multi(ip, st, it, i):
+    """[(state, element i)] — adaptors such as chain need a case split on the index."""
     k = it[1]
+    i = lin(i)
+    if k == "range":
+        return [(st, vsize(it[2] + i))]
+    if k == "slice":
+        return [(st, vref(ip.br(it[2], i * it[3], it[3])))]
+    if k == "iobuf":
+        return [(st, mk_inout(ip.br(it[2], i * it[4], it[4]), ip.br(it[3], i * it[4], it[4])))]
+    if k == "chunks":
+        return [(st, vref(ip.br(it[2], i * it[4], it[4])))]
+    if k == "once":
+        return [(st, it[2])]
     if k == "skip":
-        return iter_elem_multi(ip, st, it[2], lin(i) + it[3])
+        return iter_elem_multi(ip, st, it[2], i + it[3])
     if k == "take":
         return iter_elem_multi(ip, st, it[2], i)
     if k == "copied":
         return [(s2, ip.load(s2, tg_of(e))) for s2, e in iter_elem_multi(ip, st, it[2], i)]
     if k == "rev":
         n = iter_count(ip, st, it[2])
-        return iter_elem_multi(ip, st, it[2], n - 1 - lin(i))
+        return iter_elem_multi(ip, st, it[2], n - 1 - i)
     if k == "chain":
         na = iter_count(ip, st, it[2])
         out = []
-        for s2, first in fork_on(st, ("lt", lin(i) - na)):
+        for s2, first in fork_on(st, ("lt", i - na)):
             if first:
                 out.extend(iter_elem_multi(ip, s2, it[2], i))
             else:
-                out.extend(iter_elem_multi(ip, s2, it[3], lin(i) - na))
+                out.extend(iter_elem_multi(ip, s2, it[3], i - na))
         return out
     if k == "zip":
         out = []
@@ -1356,4 +1262,11 @@ def iter_elem_multi(ip, st, it, i):  # noqa: F811
         return [(s2, ("tuple", [vsize(i), e])) for s2, e in iter_elem_multi(ip, st, it[2], i)]
     if k == "ref":
         return iter_elem_multi(ip, st, ip.load(st, it[2]), i)
-    return [(st, _iter_elem2(ip, st, it, i))]
+    raise Undecided("iterator kind %s" % k)
+
+
+def iter_elem(ip, st, it, i):
+    r = iter_elem_multi(ip, st, it, i)
+    if len(r) != 1:
+        raise Undecided("iterator element needs a case split")
+    return r[0][1]
